@@ -7,6 +7,7 @@
  *   file <path> <offset> <pages> <perms>                   file mapping
  *   fill <anon-idx> <byte>                                 every byte of that mapping set to the value
  *   threadd <kind> <sp_off> <pages> <above> <name-hex|->   deep stack: <above> whole pages above the page of the stack pointer
+ *   mainname <name-hex|00>                                 name of the main thread
  *   poke <thread-idx> <off> <anon-idx> <aoff>              store &anon[aoff] at thread's sp+off (after both lines)
  *   anonat <hexaddr> <pages> <perms>                       anonymous mapping at a fixed address
  *   filexat <hexaddr> <hexpath> <offset> <pages> <perms>   file mapping at a fixed address
@@ -40,7 +41,7 @@
 #include <sys/wait.h>
 #include <unistd.h>
 
-#define MAXT 64
+#define MAXT 256   /* kinds other than block / nullsp only below index 64 (their slots in the shared page) */
 enum kind { K_BLOCK, K_SPIN, K_NULLSP, K_EXITER, K_VFORKER };
 struct tcfg { enum kind kind; unsigned sp_off; unsigned pages; char name[16]; int has_name; int idx;
               uint64_t sp; volatile int go_exit; pthread_t th; pid_t tid; };
@@ -112,7 +113,7 @@ int main(int argc, char **argv) {
   for (int s = SIGRTMIN; s < SIGRTMIN + 8; s++) sigaction(s, &sa, 0);
   sigaction(SIGUSR1, &sa, 0); sigaction(SIGUSR2, &sa, 0);
   FILE *f = fopen(argv[1], "r"); if (!f) return 3;
-  char line[1024]; char facts[8192]; int fl = 0;
+  char line[1024]; static char facts[65536]; int fl = 0;
   while (fgets(line, sizeof line, f)) {
     char a[64], b[512]; unsigned u1, u2, u3, u4; unsigned long ul1;
     if (sscanf(line, "thread %63s %u %u %511s", a, &u1, &u2, b) == 4) {
@@ -187,6 +188,9 @@ int main(int argc, char **argv) {
     } else if (sscanf(line, "poke %u %u %u %u", &u1, &u2, &u3, &u4) == 4) {
       /* a pointer into anonymous mapping u3 stored in thread u1's stack, u2 bytes above its stack pointer */
       if (u1 < (unsigned)NT && u3 < (unsigned)NA) *(uint64_t *)(uintptr_t)(T[u1].sp + u2) = (uint64_t)(uintptr_t)(A[u3].p + u4);
+    } else if (sscanf(line, "mainname %511s", b) == 1) {
+      /* the main thread's own name (00 = the empty name) */
+      char nm[17]; if (!strcmp(b, "00")) nm[0] = 0; else unhex(b, nm, 16); prctl(PR_SET_NAME, nm);
     } else if (!strncmp(line, "mainexit", 8)) {
       main_exits = 1;
     } else if (sscanf(line, "fd %63s", a) == 1) {
